@@ -39,7 +39,7 @@ impl ItemSourceKind {
         match self {
             ItemSourceKind::Struct => {
                 let member = field.member();
-                quote_spanned!(span=> (this.#member))
+                quote_spanned!(span=> (__this.#member))
             }
             ItemSourceKind::Enum => {
                 let ident = field.make_ident("_this");
@@ -52,7 +52,7 @@ impl ItemSourceKind {
         match self {
             ItemSourceKind::Struct => {
                 let member = field.member();
-                quote_spanned!(span=> (other.#member))
+                quote_spanned!(span=> (__other.#member))
             }
             ItemSourceKind::Enum => {
                 let ident = field.make_ident("_other");
@@ -145,7 +145,7 @@ fn build_compare_op(
                 const _: () = {
                     #[allow(clippy::double_parens)]
                     #[allow(unused_parens)]
-                    fn _f #impl_g (this: &#this_ty) #wheres {
+                    fn _f #impl_g (__this: &#this_ty) #wheres {
                         #body
                     }
                 };
@@ -215,7 +215,7 @@ fn build_partial_eq_body(
                 arms.push(quote!((#pat_this, #pat_other) => { #body }))
             }
             quote! {
-                match (self, other) {
+                match (self, __other) {
                     #(#arms)*
                     _ => false,
                 }
@@ -223,7 +223,7 @@ fn build_partial_eq_body(
         }
     };
     Ok(quote! {
-        fn eq(&self, other: &Self) -> bool {
+        fn eq(&self, __other: &Self) -> bool {
             #body
         }
     })
@@ -246,8 +246,8 @@ fn build_partial_eq_expr(
     let build_expr_by_eq = |by: &Expr| {
         quote! {
             {
-                fn #fn_ident(this: &#ty, other: &#ty, eq: impl ::core::ops::Fn(&#ty, &#ty) -> bool) -> bool {
-                    eq(this, other)
+                fn #fn_ident(__this: &#ty, __other: &#ty, __by: impl ::core::ops::Fn(&#ty, &#ty) -> bool) -> bool {
+                    __by(__this, __other)
                 }
                 #fn_ident(&#this, &#other, #by)
             }
@@ -273,8 +273,8 @@ fn build_partial_eq_expr(
     if let Some(by) = &cmp.partial_ord.by {
         return Ok(quote! {
             {
-                fn #fn_ident(this: &#ty, other: &#ty, partial_cmp: impl ::core::ops::Fn(&#ty, &#ty) -> ::core::option::Option<::core::cmp::Ordering>) -> bool {
-                    partial_cmp(this, other) == ::core::option::Option::Some(::core::cmp::Ordering::Equal)
+                fn #fn_ident(__this: &#ty, __other: &#ty, __by: impl ::core::ops::Fn(&#ty, &#ty) -> ::core::option::Option<::core::cmp::Ordering>) -> bool {
+                    __by(__this, __other) == ::core::option::Option::Some(::core::cmp::Ordering::Equal)
                 }
                 #fn_ident(&#this, &#other, #by)
             }
@@ -288,8 +288,8 @@ fn build_partial_eq_expr(
     if let Some(by) = &field.hattrs.cmp.ord.by {
         return Ok(quote! {
             {
-                fn #fn_ident(this: &#ty, other: &#ty, cmp: impl ::core::ops::Fn(&#ty, &#ty) -> ::core::cmp::Ordering) -> bool {
-                    cmp(this, other) == ::core::cmp::Ordering::Equal
+                fn #fn_ident(__this: &#ty, __other: &#ty, __by: impl ::core::ops::Fn(&#ty, &#ty) -> ::core::cmp::Ordering) -> bool {
+                    __by(__this, __other) == ::core::cmp::Ordering::Equal
                 }
                 #fn_ident(&#this, &#other, #by)
             }
@@ -365,7 +365,7 @@ fn build_eq_body(
                 arms.push(quote!(#pat_this => { #body }));
             }
             Ok(quote! {
-                match this {
+                match __this {
                     #(#arms)*
                     _ => { }
                 }
@@ -449,7 +449,7 @@ fn build_partial_ord_body(
             body.extend(quote! {
                 match #expr {
                     ::core::option::Option::Some(::core::cmp::Ordering::Equal) => {}
-                    o => return o,
+                    __o => return __o,
                 }
             });
             use_bounds = field
@@ -477,18 +477,18 @@ fn build_partial_ord_body(
             }
             let to_index_fn = build_to_index_fn(variants);
             quote! {
-                match (self, other) {
+                match (self, __other) {
                     #(#arms)*
-                    (this, other) => {
+                    (__this, __other) => {
                         #to_index_fn
-                        ::core::cmp::PartialOrd::partial_cmp(&to_index(this), &to_index(other))
+                        ::core::cmp::PartialOrd::partial_cmp(&__to_index(__this), &__to_index(__other))
                     },
                 }
             }
         }
     };
     Ok(quote! {
-        fn partial_cmp(&self, other: &Self) -> ::core::option::Option<::core::cmp::Ordering> {
+        fn partial_cmp(&self, __other: &Self) -> ::core::option::Option<::core::cmp::Ordering> {
             #body
         }
     })
@@ -512,11 +512,11 @@ fn build_partial_ord_expr(
         return Ok(quote! {
             {
                 fn #fn_ident(
-                    this: &#ty,
-                    other: &#ty,
-                    partial_cmp: impl ::core::ops::Fn(&#ty, &#ty) -> ::core::option::Option<::core::cmp::Ordering>)
+                    __this: &#ty,
+                    __other: &#ty,
+                    __by: impl ::core::ops::Fn(&#ty, &#ty) -> ::core::option::Option<::core::cmp::Ordering>)
                  -> ::core::option::Option<::core::cmp::Ordering> {
-                    partial_cmp(this, other)
+                    __by(__this, __other)
                 }
                 #fn_ident(&#this, &#other, #by)
             }
@@ -531,11 +531,11 @@ fn build_partial_ord_expr(
         return Ok(quote! {
             {
                 fn #fn_ident(
-                    this: &#ty,
-                    other: &#ty,
-                    cmp: impl ::core::ops::Fn(&#ty, &#ty) -> ::core::cmp::Ordering)
+                    __this: &#ty,
+                    __other: &#ty,
+                    __by: impl ::core::ops::Fn(&#ty, &#ty) -> ::core::cmp::Ordering)
                  -> ::core::option::Option<::core::cmp::Ordering> {
-                    ::core::option::Option::Some(cmp(this, other))
+                    ::core::option::Option::Some(__by(__this, __other))
                 }
                 #fn_ident(&#this, &#other, #by)
             }
@@ -588,7 +588,7 @@ fn build_ord_body(
             body.extend(quote! {
                 match #expr {
                     ::core::cmp::Ordering::Equal => {}
-                    o => return o,
+                    __o => return __o,
                 }
             });
             use_bounds = field
@@ -617,18 +617,18 @@ fn build_ord_body(
             }
             let to_index_fn = build_to_index_fn(variants);
             quote! {
-                match (self, other) {
+                match (self, __other) {
                     #(#arms)*
-                    (this, other) => {
+                    (__this, __other) => {
                         #to_index_fn
-                        ::core::cmp::Ord::cmp(&to_index(this), &to_index(other))
+                        ::core::cmp::Ord::cmp(&__to_index(__this), &__to_index(__other))
                     },
                 }
             }
         }
     };
     Ok(quote! {
-        fn cmp(&self, other: &Self) -> ::core::cmp::Ordering {
+        fn cmp(&self, __other: &Self) -> ::core::cmp::Ordering {
             #body
         }
     })
@@ -652,11 +652,11 @@ fn build_ord_expr(
         return Ok(quote! {
             {
                 fn #fn_ident(
-                    this: &#ty,
-                    other: &#ty,
-                    cmp: impl ::core::ops::Fn(&#ty, &#ty) -> ::core::cmp::Ordering)
+                    __this: &#ty,
+                    __other: &#ty,
+                    __by: impl ::core::ops::Fn(&#ty, &#ty) -> ::core::cmp::Ordering)
                  -> ::core::cmp::Ordering {
-                    cmp(this, other)
+                    __by(__this, __other)
                 }
                 #fn_ident(&#this, &#other, #by)
             }
@@ -728,7 +728,7 @@ fn build_hash_body(
         }
     };
     Ok(quote! {
-        fn hash<__H: ::core::hash::Hasher>(&self, state: &mut __H) {
+        fn hash<__H: ::core::hash::Hasher>(&self, __state: &mut __H) {
             #body
         }
     })
@@ -751,12 +751,12 @@ fn build_hash_expr(
         return Ok(quote! {
             {
                 fn #fn_ident<__H: ::core::hash::Hasher>(
-                    this: &#ty,
-                    state: &mut __H,
-                    hash: impl ::core::ops::Fn(&#ty, &mut __H)) {
-                    hash(this, state)
+                    __this: &#ty,
+                    __state: &mut __H,
+                    __by: impl ::core::ops::Fn(&#ty, &mut __H)) {
+                    __by(__this, __state)
                 }
-                #fn_ident(&#this, state, #by)
+                #fn_ident(&#this, __state, #by)
             }
         });
     }
@@ -788,7 +788,7 @@ fn build_hash_expr(
     }
 
     *field_used = true;
-    Ok(quote_spanned!(field.span()=> ::core::hash::Hash::hash(&(#this), state);))
+    Ok(quote_spanned!(field.span()=> ::core::hash::Hash::hash(&(#this), __state);))
 }
 
 pub(super) struct HelperAttributesForCompareOp {
@@ -1106,7 +1106,7 @@ impl Template {
 
     fn build_hash_stmt(&self, this: TokenStream) -> TokenStream {
         let this = self.apply(this);
-        quote_spanned!(this.span()=> ::core::hash::Hash::hash(&(#this), state);)
+        quote_spanned!(this.span()=> ::core::hash::Hash::hash(&(#this), __state);)
     }
 }
 fn build_to_index_fn(variants: &[VariantEntry]) -> TokenStream {
@@ -1116,8 +1116,8 @@ fn build_to_index_fn(variants: &[VariantEntry]) -> TokenStream {
         arms.push(quote!((#pat) => #index,));
     }
     quote! {
-        let to_index = |this: &Self| -> usize {
-            match this {
+        let __to_index = |__this: &Self| -> usize {
+            match __this {
                 #(#arms)*
                 _ => ::core::unreachable!(),
             }
